@@ -12,7 +12,9 @@ CALLEES = {'save_point', 'change_point', 'add_new_point', 'add_new_sample', 'swa
            'evaluate_objective', 'eval_least_squares_with_regularisation', 'objfun', 'objfun_orig', 'ExitInformation', 'OptimResults',
            'solve_main', 'soft_restart', 'reduce_rho', 'h', 'prox_uh', 'dykstra', 'save_info_from_control', 'Controller', 'Model',
            'remove_scaling', 'apply_scaling', 'gradient_Fu', 'nsamples', 'ParameterList', 'DiagnosticInfo', 'trsbox', 'd_within_bounds',
-           'ctrsbox_sfista', 'ctrsbox_pgd', 'ctrsbox_geometry', 'trsbox_geometry', 'pbox', 'pball', 'copy', 'astype', 'seed', 'append', 'allclose'}
+           'ctrsbox_sfista', 'ctrsbox_pgd', 'ctrsbox_geometry', 'trsbox_geometry', 'pbox', 'pball', 'copy', 'astype', 'seed', 'append', 'allclose', 'initialise_random_directions', 'initialise_coordinate_directions',
+           'random_orthog_directions_within_bounds', 'random_directions_within_bounds', 'get_new_direction_for_growing',
+           'add_new_direction_while_growing', 'move_furthest_points_momentum', 'geometry_step', 'calculate_ratio', 'trust_region_step', 'list', 'dict', 'items'}
 TARGET_ATTRS = {'nf', 'nx', 'delta', 'rho', 'rhoend', 'rhobeg', 'maxfun', 'kopt', 'eval_num', 'nsamples', 'objsave', 'xsave',
                 'last_successful_iter', 'last_run_fixed_rho', 'total_unsuccessful_restarts', 'factorisation_current',
                 'rsave', 'points', 'fval_v', 'objval', 'jacsave', 'jacsave_eval_nums', 'nsamples_save', 'eval_num_save', 'model_jac', 'model_jac_eval_nums',
@@ -23,7 +25,7 @@ TARGET_NAMES = {'nruns_so_far', 'nf', 'nx', 'rhoend', 'rhobeg', 'exit_info', 'ob
                 'last_successful_run', 'total_unsuccessful_restarts', 'exit_flag', 'exit_msg', 'results', 'nsamples_min',
                 'rvec', 'obj', 'nsamples', 'x_eval_num', 'jac_eval_nums', 'xmin2', 'rmin2', 'objmin2', 'jacmin2', 'nsamples2',
                 'xmin_eval_num2', 'jacmin_eval_nums2', 'diagnostic_info', 'r0_avg', 'obj0_avg', 'nx_so_far', 'nf_so_far', 'x0_eval_num',
-                'xlb', 'xub', 'xp', 'bproj', 'xabs'}
+                'xlb', 'xub', 'xp', 'bproj', 'xabs', 'ok_to_do_restart'}
 COMMITS = {'save_point', 'change_point', 'add_new_point'}
 FILES = ('util', 'model', 'controller', 'solver', 'trust_region', 'params', 'diagnostic_info')
 
